@@ -4,7 +4,6 @@ NOTES = ('Contract-based deductive verification. ./check <id> extracts the ancho
          '2 = undecided (lost anchor, unsupported construct, solver gave up) and is never reported as a violation.')
 
 NOT_APPLICABLE = {
-    'C03': 'the Java status is serde_json::Value navigation, the Bedrock pong and the legacy kick packets are String::split / String::from_utf16 / str::parse chains: outside the Verus subset (no str reasoning, no iterator adapters) and Kani does not terminate on symbolic String code (probes in DESIGN.md 1.2 and 6). Proved elsewhere: VarInt and Minecraft string framing (C17), first requests (C09), accessors (C15); the legacy u16*2 overflow found while reading was fixed (DESIGN.md 4.1)',
     'C04': 'GameSpy 1/2 key-value and table parsing is str::split / HashMap<String,String> / str::parse code, GameSpy 3 data_to_map and parse_players_and_teams likewise: outside the Verus subset and beyond Kani (parse_players_and_teams on 10 symbolic bytes > 15 min). Proved elsewhere: GameSpy 3 framing, challenge, packet table (C08, C09 in U-GS3), first requests (C09), accessors (C15); three GameSpy 1 defects found while reading were fixed (DESIGN.md 4.1)',
     'C05': 'the Quake status parser is lines() / split / join / str::parse over a lossily decoded String: outside the Verus subset and beyond Kani for the same reason as C04. First requests are covered by C09; two Quake defects found while reading (player loop never entered, single-quote line panic) were fixed (DESIGN.md 4.1)',
     'C12': 'wall-clock bounds and kernel socket behaviour are outside what a function contract can state: std::net calls are foreign code to both Verus and Kani (DESIGN.md 3/C12)',
@@ -35,6 +34,12 @@ TEXT = {
         'engine': 'kani',
         'level_text': 'Bit-precise proof, for each of the 96 table entries and all 65537 port choices (given / omitted), that the dedicated module and the generic entry point (without timeout, with the default timeout, with a sample of extra settings) reach the layer below with the destination port = the given port or the DEFINITION default, the definition protocol version / engine / gather settings (or the extra settings where the protocol takes them) and the timeout unchanged. A vacuity guard (same harness with a wrong expected port, must be refuted) runs every time.',
         'level_note': 'Recorders replace the protocol functions, so equal arguments are taken to give equal traffic; only the first call to the layer below is checked (the path is cut there); extra settings are sampled, not enumerated; response post-processing by dedicated modules is not compared; Kani/CBMC trusted.',
+    },
+    'C03': {
+        'technique': 'Verus contracts on the real auto-detection functions (protocol::query, query_legacy, query_legacy_specific and the dedicated games::minecraft::{query, query_legacy, ..}) with the variant clients as abstract callees; VarInt / Minecraft string framing from U-VARINT',
+        'engine': 'verus',
+        'level_text': 'PARTIAL: only the second sentence of the property is decided. Unbounded proof that the auto-detecting query returns the answer of the first variant that answers in the order Java, Bedrock, legacy 1.6, 1.4, beta 1.8 (Bedrock answers converted), and Err(AutoQuery) exactly when none answers; the dedicated module does the same with its default ports (25565, Bedrock 19132); VarInt and length-prefixed string framing used by the Java client are proved in U-VARINT. The first sentence (every status decodes exactly) is NOT decided by any check: those parsers are serde_json / str::split code outside both verifiers.',
+        'level_note': 'Variant clients are uninterpreted functions of the address (deterministic server); response labelling and all status decoding are not covered (evidence.not_covered). A change inside java.rs / bedrock.rs / legacy_*.rs parsing is invisible to this check.',
     },
     'C08': {
         'technique': 'Verus contract and loop invariants on the real ValveProtocol::receive (split-packet reassembly): ghost sequence of fragments, concatenation function, insertion-position invariant',
